@@ -65,7 +65,7 @@ func main() {
 	case "warm":
 		engine.Warm()
 	case "c14cold":
-		engine.C14Cold(os.Args[2])
+		engine.C14Cold(os.Args[2], os.Args[3])
 	case "c17worker":
 		i, _ := strconv.Atoi(os.Args[2])
 		n, _ := strconv.Atoi(os.Args[3])
